@@ -39,6 +39,8 @@ PALETTE = [
     ("v", "S", (2, 2), (1,), "****"),
     ("b", "N", (3,), (0,), "***"),
     ("c", "N", (2,), (0,), "**"),
+    ("d0", "A", (1, 1), (0,), "**"),
+    ("d0", "A", (2, 2), (0,), "****"),
     ("D", "S", (2, 2), (-1,), "vvoo"),
     ("D", "S", (1, 1), (-1,), "vo"),
 ]
@@ -76,7 +78,7 @@ class TermGen:
         self.o = dict(n_tensors=(2, 3), spaces="ov", spin=False, names=None,
                       max_contracted=6, max_target=4, deltas=(0, 0),
                       exponents=0.0, prefactors=True, symbols=0.0, pool_size=5,
-                      exclude=("D", "v"))
+                      exclude=("D", "v", "d0"))
         self.o.update(opts)
 
     def _palette(self):
